@@ -291,8 +291,8 @@ fn width_part<const B: u32>(seed: u64, thorough: bool, out: &mut Out) -> Value {
 
 pub fn run(seed: u64, thorough: bool) -> (Out, Value) {
     let mut out = Out::default();
-    out.deadline = Some(std::time::Instant::now() + std::time::Duration::from_secs(if thorough { 2400 } else { 150 }));
-    let total = if thorough { 2400 } else { 150 };
+    out.deadline = Some(std::time::Instant::now() + std::time::Duration::from_secs(if thorough { 1200 } else { 150 }));
+    let total = if thorough { 1200 } else { 150 };
     let t0 = std::time::Instant::now();
     out.deadline = Some(t0 + std::time::Duration::from_secs(total / 3));
     let d16 = width_part::<16>(seed, thorough, &mut out);
